@@ -6,7 +6,12 @@
 // with a global sequence number and the virtual time in ms.  The Lean driver (McpModel/Order/Driver)
 // checks that the log is a run of the proved model and evaluates the property monitor on it.
 //
-// Besides the SDK's own client there is a RAW streamable peer (transports rw, rwj, rh): it speaks HTTP
+// Wave 4: handler durations up to 90 s; sessionless servers sn/snj (GetSessionID returns ""), also for the raw peer
+// (rs = Stateless, rn = GetSessionID ""); transport run (Server.Run over pipes); calls whose context is cancelled
+// (kind x, cx=) with the receiving connection's Cancel goroutine scheduled late (cfg ck=, verif hook site K1);
+// callbacks CreateMessageWithTools / Elicit from inside handlers.
+//
+// Besides the SDK's own client there is a RAW streamable peer (transports rw, rwj, rh, rs, rn): it speaks HTTP
 // to the server side directly (ServeHTTP of a StreamableServerTransport that the test connected itself,
 // or of the StreamableHTTPHandler), with a legacy protocol version, and POSTs bodies that the SDK
 // client never produces: JSON-RPC batches of 1..16 messages (legal before 2025-06-18, the version
@@ -216,7 +221,7 @@ func (rt *ordRT) RoundTrip(req *http.Request) (*http.Response, error) {
 
 type ordMsg struct {
 	dir  string // c2s | s2c
-	kind byte   // i initialize (synchronous call) · n notification · c call, sender waits · g call in its own goroutine, sender continues once everything is quiet · r call in its own goroutine, racing
+	kind byte   // i initialize (synchronous call) · n notification · c call, sender waits · g call in its own goroutine, sender continues once everything is quiet · r call in its own goroutine, racing · x like r, and the caller's context is cancelled cx ms after the call was issued
 	meth string
 	d    int // handler duration, virtual ms
 	gap  int // pause of the sender after issuing it, virtual ms
@@ -227,6 +232,7 @@ type ordMsg struct {
 	of   int  // fan-out cases: the fan-out (1, 2, …) this message is the per-session copy of; 0 = a directed message
 	lat  int  // fan-out cases: virtual ms a sending middleware adds to this message's send path
 	cut  bool // s2c on a streamable server with an event store: before this message is sent the client's hanging GET is cut (the stream is detached: sends are stored only, until the client resumes with Last-Event-ID)
+	cx   int  // kind x: the context of the sending call is cancelled cx virtual ms after the call began (the call returns with the context's error, the SDK sends notifications/cancelled to the peer)
 	rsm  bool // …: this message is sent the instant the resumed GET begins to write the backlog (the frame of the first message sent while detached takes `stall` ms)
 }
 
@@ -243,6 +249,7 @@ type ordCase struct {
 	pv   string
 	msgs []ordMsg
 	// fan-out cases (np > 1): ONE Client connected to np servers (dir c2s) or ONE Server with np client sessions (dir s2c)
+	ck    int // the goroutine that performs a cancellation on the receiving jsonrpc2 connection (`go conn.Cancel(id)`, started by the preempter) is scheduled ck virtual ms late (site K1, before it touches the connection's state)
 	stall int // resume scenario: how long (hundreds of scheduler yields, at most) the first replayed frame is held back on the resumed connection
 	np    int
 	pvs   []string // protocol version per peer
@@ -265,10 +272,16 @@ func (c *ordCase) cfgOp() string {
 		} else {
 			sub = ""
 		}
+		if c.ck > 0 {
+			sub += fmt.Sprintf(" ck=%d", c.ck)
+		}
 		return fmt.Sprintf("cfg tr=%s dir=%s pv=%s np=%d%s", c.tr, c.dir, strings.Join(c.pvs, ","), c.np, sub)
 	}
 	if c.stall > 0 {
 		return fmt.Sprintf("cfg tr=%s dir=%s pv=%s stall=%d", c.tr, c.dir, c.pv, c.stall)
+	}
+	if c.ck > 0 {
+		return fmt.Sprintf("cfg tr=%s dir=%s pv=%s ck=%d", c.tr, c.dir, c.pv, c.ck)
 	}
 	return fmt.Sprintf("cfg tr=%s dir=%s pv=%s", c.tr, c.dir, c.pv)
 }
@@ -290,6 +303,9 @@ func (m *ordMsg) op(i int) string {
 	}
 	if m.rs != 0 {
 		s += fmt.Sprintf(" rs=%d", m.rs)
+	}
+	if m.kind == 'x' {
+		s += fmt.Sprintf(" cx=%d", m.cx)
 	}
 	if m.cut {
 		s += " cut=1"
@@ -409,6 +425,19 @@ func (h *ordH) log(what string, id int) {
 // reports of one connection are in queue order): event `enq`.  The hook is global: one case at a time.
 func (h *ordH) hookEnq() {
 	jsonrpc2.VerifHook = func(_ *jsonrpc2.Connection, site string, subj any) {
+		if site == "K1" && h.c.ck > 0 {
+			// the goroutine that is to cancel an incoming call gets the processor late (a schedule)
+			time.Sleep(time.Duration(h.c.ck) * time.Millisecond)
+		}
+		if site == "A1" && (h.c.tr == "rh" || h.c.tr == "rs" || h.c.tr == "rn") {
+			// a slow session reader on the StreamableHTTPHandler paths (rh, rs, rn): the connection's reader goroutine
+			// pauses before it accepts this message (on rw/rwj the wrapping connection pauses after Read instead)
+			if req, ok := subj.(*jsonrpc2.Request); ok && req != nil {
+				if tag := ordRawTag(req.Params); tag >= 0 && tag < len(h.c.msgs) && h.c.msgs[tag].rs > 0 {
+					time.Sleep(time.Duration(h.c.msgs[tag].rs) * time.Millisecond)
+				}
+			}
+		}
 		if site != "A2" {
 			return
 		}
@@ -477,7 +506,8 @@ func (h *ordH) recvMWat(peer int, next MethodHandler) MethodHandler {
 		if peer >= 0 && tag >= 0 && tag < len(h.c.msgs) && h.c.msgs[tag].to != peer {
 			tag = -1
 		}
-		if tag == ordIgnore {
+		if tag == ordIgnore || method == notificationCancelled {
+			// the SDK's own cancellation notice (sent by a call whose context ended) is not a message of the script
 			return next(ctx, method, req)
 		}
 		h.log("beg", tag)
@@ -487,10 +517,17 @@ func (h *ordH) recvMWat(peer int, next MethodHandler) MethodHandler {
 			var err error
 			switch sess := req.GetSession().(type) {
 			case *ServerSession:
-				if tag%2 == 0 {
+				switch tag % 4 {
+				case 0:
 					_, err = sess.ListRoots(cctx, &ListRootsParams{})
-				} else {
+				case 1:
 					err = sess.Ping(cctx, &PingParams{})
+				case 2:
+					_, err = sess.CreateMessageWithTools(cctx, &CreateMessageWithToolsParams{MaxTokens: 5,
+						Messages: []*SamplingMessageV2{{Role: "user", Content: []Content{&TextContent{Text: "x"}}}},
+						Tools:    []*Tool{{Name: "t", InputSchema: map[string]any{"type": "object"}}}})
+				default:
+					_, err = sess.Elicit(cctx, &ElicitParams{Message: "x"})
 				}
 			case *ClientSession:
 				if tag%2 == 0 {
@@ -520,6 +557,13 @@ func (h *ordH) recvMWat(peer int, next MethodHandler) MethodHandler {
 func (h *ordH) issue(ctx context.Context, i int, cs *ClientSession, ss *ServerSession, client *Client) error {
 	m := h.c.msgs[i]
 	ctx = context.WithValue(ctx, ordTagKey{}, i)
+	if m.kind == 'x' {
+		cctx, cancel := context.WithCancel(ctx)
+		tm := time.AfterFunc(time.Duration(m.cx)*time.Millisecond, cancel)
+		defer tm.Stop()
+		defer cancel()
+		ctx = cctx
+	}
 	var err error
 	if m.dir == "c2s" {
 		switch m.meth {
@@ -564,6 +608,10 @@ func (h *ordH) issue(ctx context.Context, i int, cs *ClientSession, ss *ServerSe
 			_, err = ss.CreateMessage(ctx, &CreateMessageParams{MaxTokens: 5, Messages: []*SamplingMessage{{Role: "user", Content: &TextContent{Text: "x"}}}})
 		case "elicit":
 			_, err = ss.Elicit(ctx, &ElicitParams{Message: "x"})
+		case "samplet":
+			_, err = ss.CreateMessageWithTools(ctx, &CreateMessageWithToolsParams{MaxTokens: 5,
+				Messages: []*SamplingMessageV2{{Role: "user", Content: []Content{&TextContent{Text: "x"}}}},
+				Tools:    []*Tool{{Name: "t", InputSchema: map[string]any{"type": "object"}}}})
 		case "ping":
 			err = ss.Ping(ctx, &PingParams{})
 		default:
@@ -590,7 +638,7 @@ func (h *ordH) runScript(ctx context.Context, dir string, from int, cs *ClientSe
 		switch m.kind {
 		case 'n', 'c':
 			h.issue(ctx, i, cs, ss, client)
-		case 'g', 'r':
+		case 'g', 'r', 'x':
 			wg.Add(1)
 			go func() {
 				defer wg.Done()
@@ -818,10 +866,14 @@ func ordRunCase(t *testing.T, out *verifOut, id string, c *ordCase) {
 				flush()
 			}
 		}()
-		server := NewServer(&Implementation{Name: "s", Version: "1"}, &ServerOptions{
+		sopts := &ServerOptions{
 			RootsListChangedHandler:     func(context.Context, *RootsListChangedRequest) {},
 			ProgressNotificationHandler: func(context.Context, *ProgressNotificationServerRequest) {},
-		})
+		}
+		if strings.HasPrefix(c.tr, "sn") || c.tr == "rn" {
+			sopts.GetSessionID = func() string { return "" } // no session ids: every POST gets a temporary session
+		}
+		server := NewServer(&Implementation{Name: "s", Version: "1"}, sopts)
 		server.AddReceivingMiddleware(h.recvMW)
 		server.AddSendingMiddleware(h.sendMW)
 		server.AddTool(&Tool{Name: "t", InputSchema: map[string]any{"type": "object"}}, func(ctx context.Context, req *CallToolRequest) (*CallToolResult, error) {
@@ -869,6 +921,15 @@ func ordRunCase(t *testing.T, out *verifOut, id string, c *ordCase) {
 				status = "connect-fail"
 			}
 			ss, ct = s, &IOTransport{Reader: r2, Writer: w1}
+		case "run":
+			// the server side is Server.Run over a pair of pipes (what a stdio server does with os.Stdin/os.Stdout)
+			r1, w1 := io.Pipe()
+			r2, w2 := io.Pipe()
+			rctx, rcancel := context.WithCancel(context.Background())
+			runDone := make(chan error, 1)
+			go func() { runDone <- server.Run(rctx, &IOTransport{Reader: r1, Writer: w2}) }()
+			cleanup = append(cleanup, func() { rcancel(); <-runDone })
+			ct = &IOTransport{Reader: r2, Writer: w1}
 		case "sse":
 			hd := NewSSEHandler(getServer, nil)
 			ct = &SSEClientTransport{Endpoint: url, HTTPClient: &http.Client{Transport: &ordRT{h: hd}}}
@@ -881,8 +942,10 @@ func ordRunCase(t *testing.T, out *verifOut, id string, c *ordCase) {
 			}
 			ss = s
 			raw = &ordRaw{h: h, hc: &http.Client{Transport: &ordRT{h: tp}}, url: url}
-		case "rh":
-			hd := NewStreamableHTTPHandler(getServer, &StreamableHTTPOptions{})
+		case "rh", "rs", "rn":
+			// rs: a stateless handler; rn: a stateful handler of a server that hands out no session ids (sopts above):
+			// every POST of the raw peer — a whole JSON-RPC batch included — is served by one temporary session
+			hd := NewStreamableHTTPHandler(getServer, &StreamableHTTPOptions{Stateless: c.tr == "rs"})
 			cleanup = append(cleanup, hd.closeAll)
 			raw = &ordRaw{h: h, hc: &http.Client{Transport: &ordRT{h: hd}}, url: url}
 			if c.pv >= protocolVersion20250618 || len(c.msgs)%2 == 0 {
@@ -890,7 +953,7 @@ func ordRunCase(t *testing.T, out *verifOut, id string, c *ordCase) {
 			}
 		default:
 			o := &StreamableHTTPOptions{}
-			rest := strings.TrimPrefix(strings.TrimPrefix(c.tr, "sh"), "sl")
+			rest := c.tr[2:]
 			o.Stateless = strings.HasPrefix(c.tr, "sl")
 			o.JSONResponse = strings.Contains(rest, "j")
 			if strings.Contains(rest, "e") {
@@ -1031,6 +1094,19 @@ func ordRunCase(t *testing.T, out *verifOut, id string, c *ordCase) {
 			if overlap[i] {
 				tags = append(tags, "overlapped")
 			}
+			if m.kind == 'x' {
+				switch {
+				case e == "0":
+					tags = append(tags, "cancel-too-late")
+				case cnt[i] == 0:
+					tags = append(tags, "cancelled-unhandled") // cancelled while still queued (or before it arrived): never handed to a handler
+				default:
+					tags = append(tags, "cancelled-running")
+				}
+				if c.ck > 0 {
+					tags = append(tags, "cancel-goroutine-late")
+				}
+			}
 			if m.cb {
 				tags = append(tags, "callback", h.cbres[i])
 			}
@@ -1096,6 +1172,29 @@ func ordOverlaps(evs []ordEv) map[int]bool {
 
 var ordLegacy = []string{protocolVersion20251125, protocolVersion20250618, protocolVersion20250326, protocolVersion20241105}
 
+// ordDur draws a handler duration (virtual ms): none, a few ms, up to 15 ms, or — one handler in sixteen — a
+// LONG-running one, 1 s to 90 s ("all handler durations": longer than any bound a transport might put on an
+// exchange, a write or a wait).
+func ordDur(rng *rand.Rand) int {
+	switch r := rng.Intn(16); {
+	case r < 4:
+		return 0
+	case r < 8:
+		return 1 + rng.Intn(3)
+	case r == 15:
+		return 1000 + rng.Intn(89001)
+	default:
+		return 1 + rng.Intn(15)
+	}
+}
+
+// ordSessionless: every POST of the client is served by a temporary session of its own — a stateless
+// StreamableHTTPHandler (sl, slj) or a stateful one whose server hands out no session ids
+// (ServerOptions.GetSessionID returns "": sn, snj).
+func ordSessionless(tr string) bool {
+	return strings.HasPrefix(tr, "sl") || strings.HasPrefix(tr, "sn") || tr == "rs" || tr == "rn"
+}
+
 // ordGenRaw: a raw streamable peer.  After the handshake 2-5 (thorough 2-8) POSTs: a JSON-RPC batch of
 // 1..16 messages (mostly notifications; sometimes with calls among them) or a single message, each
 // POST issued after the previous one was answered (single calls also from goroutines of their own).
@@ -1104,18 +1203,9 @@ var ordLegacy = []string{protocolVersion20251125, protocolVersion20250618, proto
 // the body is handed over.
 func ordGenRaw(rng *rand.Rand, tr string, maxLen int) *ordCase {
 	c := &ordCase{tr: tr, dir: "c2s", pv: ordLegacy[rng.Intn(len(ordLegacy))]}
-	gated := tr != "rh"
+	gated := tr == "rw" || tr == "rwj"
 	batchOK := gated || c.pv < protocolVersion20250618
-	dur := func() int {
-		switch rng.Intn(4) {
-		case 0:
-			return 0
-		case 1:
-			return 1 + rng.Intn(3)
-		default:
-			return 1 + rng.Intn(15)
-		}
-	}
+	dur := func() int { return ordDur(rng) }
 	c.msgs = append(c.msgs, ordMsg{dir: "c2s", kind: 'i', meth: "initialize", d: dur()}, ordMsg{dir: "c2s", kind: 'n', meth: "initialized", d: dur()})
 	units := 2 + rng.Intn(4)
 	if maxLen > 8 {
@@ -1155,7 +1245,8 @@ func ordGenRaw(rng *rand.Rand, tr string, maxLen int) *ordCase {
 			c.msgs[len(c.msgs)-1].gap = 1 + rng.Intn(9)
 		}
 	}
-	if gated {
+	{
+		// the session's reader pauses now and then: on rw/rwj through the wrapping connection, elsewhere at site A1
 		for i := 1; i < len(c.msgs); i++ {
 			if c.msgs[i].rs == 0 && rng.Intn(12) == 0 {
 				c.msgs[i].rs = 1 + rng.Intn(60)
@@ -1166,13 +1257,13 @@ func ordGenRaw(rng *rand.Rand, tr string, maxLen int) *ordCase {
 }
 
 func ordGen(rng *rand.Rand, tr string, maxLen int) *ordCase {
-	if strings.HasPrefix(tr, "r") {
+	if strings.HasPrefix(tr, "r") && tr != "run" {
 		return ordGenRaw(rng, tr, maxLen)
 	}
 	c := &ordCase{tr: tr}
-	stateless := strings.HasPrefix(tr, "sl")
+	stateless := ordSessionless(tr)
 	c.pv = ordLegacy[rng.Intn(len(ordLegacy))]
-	if (tr == "mem" || tr == "io" || stateless) && rng.Intn(4) == 0 {
+	if (tr == "mem" || tr == "io" || strings.HasPrefix(tr, "sl")) && rng.Intn(4) == 0 {
 		c.pv = protocolVersion20260728
 	}
 	isNew := c.pv >= protocolVersion20260728
@@ -1184,16 +1275,7 @@ func ordGen(rng *rand.Rand, tr string, maxLen int) *ordCase {
 	default:
 		c.dir = "s2ci"
 	}
-	dur := func() int {
-		switch rng.Intn(4) {
-		case 0:
-			return 0
-		case 1:
-			return 1 + rng.Intn(3)
-		default:
-			return 1 + rng.Intn(15)
-		}
-	}
+	dur := func() int { return ordDur(rng) }
 	gap := func() int {
 		if rng.Intn(3) == 0 {
 			return 1 + rng.Intn(9)
@@ -1236,11 +1318,15 @@ func ordGen(rng *rand.Rand, tr string, maxLen int) *ordCase {
 				m.kind = 'n'
 				m.meth = []string{"log", "prog"}[rng.Intn(2)]
 			} else {
-				m.meth = []string{"lroots", "sample", "elicit", "ping"}[rng.Intn(4)]
+				m.meth = []string{"lroots", "sample", "elicit", "ping", "samplet"}[rng.Intn(5)]
 			}
 		}
 		if m.kind == 0 {
-			m.kind = []byte{'c', 'c', 'g', 'g', 'r'}[rng.Intn(5)]
+			m.kind = []byte{'c', 'c', 'g', 'g', 'r', 'c', 'g', 'x'}[rng.Intn(8)]
+			if m.kind == 'x' {
+				// the caller gives up: at once, after a few ms, or after a while
+				m.cx = []int{0, 1 + rng.Intn(5), 1 + rng.Intn(30), 1 + rng.Intn(2000)}[rng.Intn(4)]
+			}
 		}
 		if m.kind == 'n' && rng.Intn(3) == 0 {
 			m.cb = true
@@ -1271,7 +1357,7 @@ func ordGen(rng *rand.Rand, tr string, maxLen int) *ordCase {
 		}
 		next := s2cNote()
 		if rng.Intn(10) < 3 {
-			next = ordMsg{dir: "s2c", kind: []byte{'c', 'g'}[rng.Intn(2)], meth: []string{"lroots", "sample", "elicit", "ping"}[rng.Intn(4)], d: dur()}
+			next = ordMsg{dir: "s2c", kind: []byte{'c', 'g'}[rng.Intn(2)], meth: []string{"lroots", "sample", "elicit", "ping", "samplet"}[rng.Intn(5)], d: dur()}
 		}
 		next.rsm = true
 		c.msgs = append(c.msgs, next)
@@ -1280,6 +1366,9 @@ func ordGen(rng *rand.Rand, tr string, maxLen int) *ordCase {
 			m.gap = gap()
 			c.msgs = append(c.msgs, m)
 		}
+	}
+	if c.stall == 0 && rng.Intn(2) == 0 {
+		c.ck = 1 + rng.Intn(25)
 	}
 	if !isNew && rng.Intn(4) == 0 {
 		c.msgs[1].cb = true // the server's `initialized` handler calls back, too
@@ -1310,7 +1399,7 @@ func ordBodyCase(tr string, n, mask, salt int) *ordCase {
 	return c
 }
 
-var ordTransports = []string{"mem", "io", "sse", "sh", "shj", "she", "shje", "sl", "slj", "rw", "rwj", "rh"}
+var ordTransports = []string{"mem", "io", "sse", "sh", "shj", "she", "shje", "sl", "slj", "rw", "rwj", "rh", "run", "sn", "snj", "rs", "rn"}
 
 func ordParse(lines []string) (*ordCase, bool) {
 	c := &ordCase{}
@@ -1331,6 +1420,7 @@ func ordParse(lines []string) (*ordCase, bool) {
 		case "cfg":
 			c.tr, c.dir, c.pv = kv(f, "tr"), kv(f, "dir"), kv(f, "pv")
 			c.stall, _ = strconv.Atoi(kv(f, "stall"))
+			c.ck, _ = strconv.Atoi(kv(f, "ck"))
 			if np, _ := strconv.Atoi(kv(f, "np")); np > 1 {
 				c.np = np
 				c.pvs = strings.Split(c.pv, ",")
@@ -1362,7 +1452,8 @@ func ordParse(lines []string) (*ordCase, bool) {
 			to, _ := strconv.Atoi(kv(f, "to"))
 			of, _ := strconv.Atoi(kv(f, "of"))
 			lat, _ := strconv.Atoi(kv(f, "lat"))
-			c.msgs = append(c.msgs, ordMsg{dir: kv(f, "dir"), kind: k[0], meth: kv(f, "meth"), d: d, gap: g, cb: kv(f, "cb") == "1", b: b, rs: rs, to: to, of: of, lat: lat, cut: kv(f, "cut") == "1", rsm: kv(f, "rsm") == "1"})
+			cx, _ := strconv.Atoi(kv(f, "cx"))
+			c.msgs = append(c.msgs, ordMsg{dir: kv(f, "dir"), kind: k[0], meth: kv(f, "meth"), d: d, gap: g, cb: kv(f, "cb") == "1", b: b, rs: rs, to: to, of: of, lat: lat, cut: kv(f, "cut") == "1", rsm: kv(f, "rsm") == "1", cx: cx})
 		}
 	}
 	return c, c.tr != "" && len(c.msgs) > 0
@@ -1414,7 +1505,7 @@ func TestVerifOrder(t *testing.T) {
 	// exhaustive: a raw streamable peer POSTs ONE batch of every composition of calls and notifications up to four
 	// members (pre-2025-06-18 batching; Mcp-Protocol-Version absent or present on rh), then a notification and a call
 	ci := 0
-	for _, tr := range []string{"rw", "rwj", "rh"} {
+	for _, tr := range []string{"rw", "rwj", "rh", "rs", "rn"} {
 		for n := 1; n <= 4; n++ {
 			for mask := 0; mask < 1<<n; mask++ {
 				ordRunCase(t, out, fmt.Sprintf("x%d", ci), ordBodyCase(tr, n, mask, ci))
